@@ -95,7 +95,14 @@ let () =
          bump (Printf.sprintf "status_%d" (int_of_n o.status));
          if int_of_n o.status >= 200 && int_of_n o.status < 300 && not (aft = sb) then ();
          note_nontrivial (show (L [tree; req]));
+         (* write-fault cases (a file-size limit is in force while the request is served): the
+            one-step model has no write errors, so only the property's own statement is evaluated
+            on the observation (C02: failed => tree unchanged; C17: no host path); the step-level
+            theorems (upload_abort_restores, copy_fault_restores) are the proof side *)
+         let wlimit = (match drv with L l -> (match List.rev l with last :: _ -> (try int_ last with _ -> 0) | [] -> 0) | _ -> 0) in
+         if wlimit > 0 then bump (if int_of_n o.status >= 400 then "write_fault_failed" else "write_fault_not_hit");
          let agree, spec = match mode with
+           | "c02" when wlimit > 0 -> spec_c02 sb o aft, spec_c02 sb o aft
            | "c02" -> agrees_c02 root sb r o aft, spec_c02 sb o aft
            | "c03" -> agrees_c03 root sb r o aft, spec_c03 root sb r o aft
            | "c17" -> agrees_c17 root sb r o, spec_c17 o
